@@ -68,10 +68,14 @@ def main(tier):
         its = universe.one_dev(corpus.small_slice(), KINDS) + universe.one_dev(corpus.seed_ids(("fix", "cls", "gen", "big")), ("ALLUP", "ALLLO", "ALLJ"))
         bound = "1 deviation (every layout and case operator at every position) over S_q; whole-file case flips and the whole design on one line over all seeds"
     else:
-        its = universe.one_dev(corpus.seed_ids(("fix", "cls")), KINDS) + universe.one_dev(corpus.seed_ids(("gen", "big")), ("NL", "CE", "J", "ALLUP", "ALLLO", "ALLJ", "CAP"))
+        fc = corpus.seed_ids(("fix", "cls"))
+        small = [x for x in fc if len(corpus.lines_of(x)) <= 40]
+        rest = [x for x in fc if len(corpus.lines_of(x)) > 40]
+        its = universe.one_dev(small, KINDS) + universe.one_dev(rest, ("NL", "CE", "J", "W0", "WI", "ALLUP", "ALLLO", "ALLJ")) + universe.one_dev(fc, ("ALLJ",)) \
+            + universe.one_dev(corpus.seed_ids(("gen", "big")), ("NL", "CE", "J", "ALLUP", "ALLLO", "ALLJ", "CAP"))
         singles = [s for s in corpus.small_slice() if s.startswith("gen/")]
         its += universe.two_dev(singles, ("NL", "CE", "J", "W0", "WI", "UP"), max_dist_lines=1)
-        bound = "1 deviation (every operator) over all fix/cls seeds, (NL, CE, J, CAP, whole-file case, whole design on one line) over generated and large seeds; 2 deviations (NL, CE, J, W0, CD, UP; at most one line apart) over the single-construct generated designs"
+        bound = "1 deviation (every operator) over the 799 fix/cls seeds of at most 40 lines, (NL, CE, J, W0, WI, whole-file operators) over the longer ones, (NL, CE, J, CAP, whole-file case, whole design on one line) over generated and large seeds; 2 deviations (NL, CE, J, W0, CD, UP; at most one line apart) over the single-construct generated designs"
     m = explore.run(its, execute, horizon=30.0, label=PROP, chunk=64)
     return report.finish(
         PROP, tier, "exploration", [m], t0,
